@@ -216,12 +216,13 @@ for shape, chunks in cases["normalize_chunks"]:
     except Exception as e:
         out["normalize_chunks"].append("ERR:" + type(e).__name__)
 for shape, chunks, sel in cases["indexer"]:
-    sl = tuple(slice(a, b) for a, b in sel)
+    sl = tuple(slice(*x) if len(x) == 2 else x[0] for x in sel)
     grid = ChunkGrid.from_sizes(array_shape=tuple(shape), chunk_sizes=tuple(chunks))
     ix = OrthogonalIndexer(sl, tuple(shape), grid)
     rows = []
     for cp in ix:
-        rows.append([list(map(int, cp.chunk_coords)), [[int(s.start), int(s.stop)] for s in cp.chunk_selection], [[int(s.start), int(s.stop)] for s in cp.out_selection]])
+        rows.append([list(map(int, cp.chunk_coords)), [[int(s.start), int(s.stop)] if isinstance(s, slice) else int(s) for s in cp.chunk_selection],
+                     [[int(s.start), int(s.stop)] for s in cp.out_selection]])
     out["indexer"].append({"shape": list(map(int, ix.shape)), "rows": rows})
 print("@@" + json.dumps(out))
 '''
@@ -239,6 +240,9 @@ def storage_cases(rng, n, repo):
         nc_cases.append((shape, chunks))
         sel = []
         for s in shape:
+            if rng.random() < 0.25:
+                sel.append([rng.randint(0, s - 1)])  # integer selection: the axis is dropped
+                continue
             a = rng.randint(0, s)
             b = rng.randint(a, s)
             sel.append([a, b])
@@ -268,7 +272,7 @@ def storage_cases(rng, n, repo):
     for (shape, chunks, sel), want in zip(ix_cases, truth["indexer"]):
         def t_ix(shape=shape, chunks=chunks, sel=sel, want=want):
             ctx, it = _ctx()
-            ix = SymIndexer(it, tuple(slice(a, b) for a, b in sel), tuple(shape), tuple(chunks))
+            ix = SymIndexer(it, tuple(slice(*x) if len(x) == 2 else x[0] for x in sel), tuple(shape), tuple(chunks))
             got_shape = [_conc(ctx, s) for s in ix.shape]
             if got_shape != want["shape"]:
                 return f"indexer shape {got_shape} != zarr {want['shape']} for {shape, chunks, sel}"
@@ -283,8 +287,9 @@ def storage_cases(rng, n, repo):
                 for ax, j in zip(ix.axes, js):
                     q, c_, o_ = ax.proj(it, j)
                     coords.append(_conc(ctx, q))
-                    cs.append([_conc(ctx, c_.start), _conc(ctx, c_.stop)])
-                    os_.append([_conc(ctx, o_.start), _conc(ctx, o_.stop)])
+                    cs.append([_conc(ctx, c_.start), _conc(ctx, c_.stop)] if isinstance(c_, slice) else _conc(ctx, c_))
+                    if o_ is not None:
+                        os_.append([_conc(ctx, o_.start), _conc(ctx, o_.stop)])
                 rows.append([coords, cs, os_])
             return None if rows == want["rows"] else f"indexer projections {rows} != zarr {want['rows']} for {shape, chunks, sel}"
 
